@@ -11,6 +11,9 @@
 (*   ReadEnd{d, kind} WriteErr{d}             (scripted conns only) the relay's Read on the     *)
 (*                                            source of direction d got EOF/err; its Write failed *)
 (*   RelayCloseWrite{e} RelayClose{e}         (scripted conns only) relay called these on conn e *)
+(*   RelayDeadline{e, inMs}                   (scripted conns) relay set a read deadline on conn e; *)
+(*                                            ReadEnd kind "timeout" = it expired on the scripted   *)
+(*                                            clock (one second per step, traffic in every step)    *)
 (*   Returned{...} | Hung                     the call returned / had not returned when the      *)
 (*                                            watchdog (5 s) expired                             *)
 (* UDP relay (iocopy.UDP)                                                                        *)
@@ -99,9 +102,14 @@ TrDeliver ==
         /\ b' = [b EXCEPT !.got[e] = IF Ev.off = @ THEN @ + Ev.len ELSE @]
   /\ Keep(mode) /\ Keep(ud)
 
+\* kind = "timeout": a read deadline the relay itself put on the conn has expired (scripted clock).
+\* Time alone must not end a direction whose source is open and has had traffic every second.
 TrReadEnd == /\ Is("ReadEnd") /\ Step
              /\ b' = [b EXCEPT !.dirEnded[Ev.d] = TRUE]
-             /\ Keep(viol) /\ Keep(mode) /\ Keep(ud)
+             /\ viol' = viol \cup (IF Ev.kind = "timeout" /\ b.wr[Src(Ev.d)] = "open" /\ ~b.rdClosed[Dst(Ev.d)]
+                                   THEN {V("ReverseFlow", "readDeadlineCutsLiveDirection:" \o Ev.d \o ":" \o b.order)} ELSE {})
+             /\ Keep(mode) /\ Keep(ud)
+TrRelayDeadline == /\ Is("RelayDeadline") /\ Step /\ Keep(b) /\ Keep(viol) /\ Keep(mode) /\ Keep(ud)
 TrWriteErr == /\ Is("WriteErr") /\ Step
               /\ b' = [b EXCEPT !.dirEnded[Ev.d] = TRUE]
               /\ Keep(viol) /\ Keep(mode) /\ Keep(ud)
@@ -186,7 +194,7 @@ TrEnd == /\ Is("End") /\ EmitVerdict
          /\ Step /\ viol' = {} /\ mode' = "none" /\ b' = B0 /\ ud' = U0
 
 Next == \/ TrBStart \/ TrSend \/ TrEpEnd \/ TrDeliver \/ TrReadEnd \/ TrWriteErr
-        \/ TrRelayCloseWrite \/ TrRelayClose \/ TrReturnedB \/ TrHungB
+        \/ TrRelayCloseWrite \/ TrRelayClose \/ TrRelayDeadline \/ TrReturnedB \/ TrHungB
         \/ TrUStart \/ TrUDeliver \/ TrUSent \/ TrTRecord \/ TrTJunk \/ TrUFlushTimeout
         \/ TrTunnelEnd \/ TrReturnedU \/ TrHungU
         \/ TrEnd
